@@ -636,3 +636,87 @@ M("C13-step-overcounts", "C13", [(DRIVE, '''        let written = written + coun
         self.set_written(packet, written, len);''', '''        let written = written + count.max(1);
         self.set_written(packet, written, len);''')],
   ["C13/store/step-accumulates"])
+
+# ---------------------------------------------------------------------------------------------- C12
+READER_RS = "src/de/packet_reader.rs"
+M("C12-connect-skips-reader-reset", "C12", [(HS, '''        self.packet_reader.reset();
+        self.runtime.reset_transport();
+        self.data.outbound.arm_replay();
+        let event''', '''        self.runtime.reset_transport();
+        self.data.outbound.arm_replay();
+        let event''')],
+  ["C12/reset/reader-before-handshake"])
+M("C12-connect-rearm-only-if-resumed", "C12", [(HS, '''        self.data.outbound.arm_replay();
+        let event''', '''        if self.data.session_present {
+            self.data.outbound.arm_replay();
+        }
+        let event''')],
+  ["C12/reset/send-progress-before-handshake"])
+M("C12-reader-reset-keeps-length", "C12", [(READER_RS, '''        self.read_bytes = 0;
+        self.packet_length = None;
+    }''', '''        self.read_bytes = 0;
+    }''')],
+  ["C12/ANCHOR-LOST/reset/reader-reset"])
+M("C12-connect-refuses-when-busy", "C12", [(HS, '''        self.packet_reader.reset();
+        self.runtime.reset_transport();''', '''        if self.runtime.ping_timeout.is_some() && self.data.outbound.retained_full() {
+            return Err(Error::NotReady);
+        }
+        self.packet_reader.reset();
+        self.runtime.reset_transport();''')],
+  ["C12/first/no-early-failure"])
+M("C12-connect-timers-not-reset", "C12", [(HS, '''        self.packet_reader.reset();
+        self.runtime.reset_transport();
+        self.data.outbound.arm_replay();
+        let event''', '''        self.packet_reader.reset();
+        self.data.outbound.arm_replay();
+        let event''')],
+  ["C12/reset/timers-before-handshake"])
+
+# ---------------------------------------------------------------------------------------------- C14
+M("C14-predicate-ge", "C14", [(STATE, '''            .is_some_and(|max| len > max as usize)''', '''            .is_some_and(|max| len >= max as usize)''')],
+  ["C14/pred/form/require_packet_size@RuntimeState"])
+M("C14-subscribe-retain-before-size-check", "C14", [(OPS, '''        self.session.runtime.require_packet_size(len)?;
+        self.session
+            .data
+            .outbound
+            .retain_packet(packet_id, offset, len)?;
+        debug!(
+            "Enqueued SUBSCRIBE packet_id={=u16} len={=usize} tx_used={=usize}",''', '''        self.session
+            .data
+            .outbound
+            .retain_packet(packet_id, offset, len)?;
+        self.session.runtime.require_packet_size(len)?;
+        debug!(
+            "Enqueued SUBSCRIBE packet_id={=u16} len={=usize} tx_used={=usize}",''')],
+  ["C14/tx/enqueue/subscribe"])
+M("C14-disconnect-no-size-check", "C14", [(OPS, '''        let packet = MqttSerializer::encode(&mut buffer, &disconnect)?;
+        self.session.runtime.require_packet_size(packet.len())?;''', '''        let packet = MqttSerializer::encode(&mut buffer, &disconnect)?;''')],
+  ["C14/tx/disconnect_with/write_all#1"])
+M("C14-puback-no-precheck", "C14", [(INB, '''                        let action = ControlAction::PubAck { packet_id, reason };
+                        check_control_packet_size(runtime.maximum_packet_size, action)?;''', '''                        let action = ControlAction::PubAck { packet_id, reason };''')],
+  ["C14/tx/precheck/handle_packet#3"])
+M("C14-advertise-half-buffer", "C14", [(HS, '''            Property::MaximumPacketSize(self.packet_reader.buffer.len() as u32),''', '''            Property::MaximumPacketSize((self.packet_reader.buffer.len() / 2) as u32),''')],
+  ["C14/adv/connect-property"])
+M("C14-rx-window-off-by-one", "C14", [(READER_RS, '''        if end <= self.buffer.len() {''', '''        if end <= self.buffer.len() + 1 {''')],
+  ["C14/rx/window"])
+M("C14-retained-replay-skips-check", "C14", [(DRIVE, '''                    runtime.require_packet_size(step.len)?;
+                    PreparedStep::Write(WriteStep {''', '''                    PreparedStep::Write(WriteStep {''')],
+  ["C14/tx/perform_outbound_step/write_current#1"])
+M("C14-size-check-wrong-length", "C14", [(OPS, '''        })?;
+        self.session.runtime.require_packet_size(len)?;
+        self.session
+            .data
+            .outbound
+            .retain_packet(packet_id, offset, len)?;
+        debug!(
+            "Enqueued UNSUBSCRIBE''', '''        })?;
+        self.session.runtime.require_packet_size(len - offset.min(len))?;
+        self.session
+            .data
+            .outbound
+            .retain_packet(packet_id, offset, len)?;
+        debug!(
+            "Enqueued UNSUBSCRIBE''')],
+  ["C14/tx/enqueue-length/unsubscribe"])
+M("C14-limit-from-config", "C14", [(HS, '''        self.runtime.maximum_packet_size = maximum_packet_size;''', '''        self.runtime.maximum_packet_size = maximum_packet_size.or(self.runtime.maximum_packet_size);''')],
+  ["C14/adv/limit-writer/connect_handshake"])
